@@ -135,6 +135,9 @@ func run(c *core.Case, st *core.CaseStats, seed int64) {
 				}
 			}
 		}
+		embedAll(func(name string, f func(typedEnv)) {
+			f(typedEnv{name: name, s: s, s2: s2, diff: o.Diff, inter: o.Inter, equal: o.Equal, rep: rep, guard: guard, two: true})
+		})
 		var e bool
 		if guard("Equal", nil, func() { e = slicez.Equal(mk(s, true), mk(s2, false)) }) && e != o.Equal {
 			rep("Equal", "value", map[string]interface{}{"s1": s, "s2": s2}, o.Equal, e)
@@ -204,6 +207,9 @@ func run(c *core.Case, st *core.CaseStats, seed int64) {
 				rep("Unique", "value", map[string]interface{}{"s": s, "elements": "float64, 2 = NaN", "dst": "s[:0]"}, o.UniqueNaN, fmt.Sprint(g))
 			}
 		}
+		embedAll(func(name string, f func(typedEnv)) {
+			f(typedEnv{name: name, s: s, unique: o.Unique, index: o.Index, rep: rep, guard: guard})
+		})
 		key := func(e int) int { return e % 2 }
 		odd := func(e int) bool { return e%2 == 1 }
 		for li, lay := range []string{"nil", "fresh", "s1"} {
@@ -362,6 +368,148 @@ func run(c *core.Case, st *core.CaseStats, seed int64) {
 		}
 	default:
 		panic("unknown fn " + c.Fn)
+	}
+}
+
+// ---- the same cases with other element types -------------------------------------------------------------------
+// The definitions of SliceOps.tla speak of equality of elements only, so every injective embedding of the model
+// values 1..4 into a comparable Go type must give the embedded result.  The embeddings below put the values close
+// together in the representation of each type (bytes that differ in one bit, integers that differ only above bit 31 or
+// only in sign, strings that differ in length or letter case, arrays, structs with a string field).
+type typedEnv struct {
+	name                       string
+	s, s2                      []int
+	diff, inter, unique, index []int
+	equal, two                 bool
+	rep                        func(fn, kind string, in, exp, act interface{})
+	guard                      func(fn string, in interface{}, f func()) bool
+}
+
+type pairT struct {
+	A int32
+	B string
+}
+
+func embedAll(with func(name string, f func(typedEnv))) {
+	with("byte A a ! @", func(e typedEnv) { typed(e, func(v int) byte { return "Aa!@"[v-1] }) })
+	with("byte 0 32 64 96", func(e typedEnv) { typed(e, func(v int) byte { return byte(32 * (v - 1)) }) })
+	with("byte 200 232 8 72", func(e typedEnv) { typed(e, func(v int) byte { return []byte{200, 232, 8, 72}[v-1] }) })
+	with("byte 255 127 63 191", func(e typedEnv) { typed(e, func(v int) byte { return []byte{255, 127, 63, 191}[v-1] }) })
+	with("uint64 above bit 31", func(e typedEnv) { typed(e, func(v int) uint64 { return []uint64{1, 1<<32 + 1, 1<<63 + 1, 1<<33 + 1}[v-1] }) })
+	with("int64 sign", func(e typedEnv) { typed(e, func(v int) int64 { return []int64{5, -5, math.MinInt64, math.MaxInt64}[v-1] }) })
+	with("int8", func(e typedEnv) { typed(e, func(v int) int8 { return []int8{-128, 127, 0, -1}[v-1] }) })
+	with("uint16 256 apart", func(e typedEnv) { typed(e, func(v int) uint16 { return []uint16{7, 263, 519, 65535}[v-1] }) })
+	with("string", func(e typedEnv) { typed(e, func(v int) string { return []string{"", "a", "A", "aa"}[v-1] }) })
+	with("[2]byte", func(e typedEnv) { typed(e, func(v int) [2]byte { return [][2]byte{{0, 1}, {1, 0}, {0, 0}, {1, 1}}[v-1] }) })
+	with("struct", func(e typedEnv) {
+		typed(e, func(v int) pairT { return []pairT{{1, "x"}, {1, "y"}, {2, "x"}, {0, ""}}[v-1] })
+	})
+	with("rune", func(e typedEnv) { typed(e, func(v int) rune { return []rune{'a', 0x10061, -1, 0x61 + 1<<17}[v-1] }) })
+	with("bool-ish uintptr", func(e typedEnv) { typed(e, func(v int) uintptr { return uintptr(v) << 40 }) })
+}
+
+func typed[T comparable](e typedEnv, conv func(int) T) {
+	mkT := func(x []int) []T {
+		out := make([]T, 0, len(x)+2)
+		for _, v := range x {
+			out = append(out, conv(v))
+		}
+		return out
+	}
+	same := func(a []T, b []int) bool {
+		if len(a) != len(b) {
+			return false
+		}
+		for i := range a {
+			if a[i] != conv(b[i]) {
+				return false
+			}
+		}
+		return true
+	}
+	sameSet := func(a []T, b []int) bool { // equal as multisets
+		if len(a) != len(b) {
+			return false
+		}
+		cnt := map[T]int{}
+		for _, v := range b {
+			cnt[conv(v)]++
+		}
+		for _, v := range a {
+			cnt[v]--
+			if cnt[v] < 0 {
+				return false
+			}
+		}
+		return true
+	}
+	in := func(fn string) map[string]interface{} {
+		return map[string]interface{}{"fn": fn, "s1": e.s, "s2": e.s2, "elements": e.name}
+	}
+	if e.two {
+		for _, lay := range []string{"nil", "s1"} {
+			a, b := mkT(e.s), mkT(e.s2)
+			var dst []T
+			if lay == "s1" {
+				dst = a[:0]
+			}
+			var g []T
+			if e.guard("Diff", in("Diff"), func() { g = slicez.Diff(dst, a, b) }) && !same(g, e.diff) {
+				e.rep("Diff", "value", in("Diff dst="+lay), e.diff, fmt.Sprint(g))
+			}
+			a, b = mkT(e.s), mkT(e.s2)
+			if lay == "s1" {
+				dst = a[:0]
+			}
+			if e.guard("Intersect", in("Intersect"), func() { g = slicez.Intersect(dst, a, b) }) && !same(g, e.inter) {
+				e.rep("Intersect", "value", in("Intersect dst="+lay), e.inter, fmt.Sprint(g))
+			}
+		}
+		a, b := mkT(e.s), mkT(e.s2)
+		var g []T
+		if e.guard("DiffInPlaceFirst", in("DiffInPlaceFirst"), func() { g = slicez.DiffInPlaceFirst(a, b) }) && (!sameSet(g, e.diff) || !sameSet(a, e.s) || !same(b, e.s2)) {
+			e.rep("DiffInPlaceFirst", "value", in("DiffInPlaceFirst"), map[string]interface{}{"multiset": e.diff}, fmt.Sprint(g, a, b))
+		}
+		a, b = mkT(e.s), mkT(e.s2)
+		if e.guard("IntersectInPlaceFirst", in("IntersectInPlaceFirst"), func() { g = slicez.IntersectInPlaceFirst(a, b) }) && (!sameSet(g, e.inter) || !sameSet(a, e.s) || !same(b, e.s2)) {
+			e.rep("IntersectInPlaceFirst", "value", in("IntersectInPlaceFirst"), map[string]interface{}{"multiset": e.inter}, fmt.Sprint(g, a, b))
+		}
+		var q bool
+		if e.guard("Equal", in("Equal"), func() { q = slicez.Equal(mkT(e.s), mkT(e.s2)) }) && q != e.equal {
+			e.rep("Equal", "value", in("Equal"), e.equal, q)
+		}
+		return
+	}
+	for _, lay := range []string{"nil", "s1"} {
+		a := mkT(e.s)
+		var dst []T
+		if lay == "s1" {
+			dst = a[:0]
+		}
+		var g []T
+		if e.guard("Unique", in("Unique"), func() { g = slicez.Unique(dst, a) }) && !same(g, e.unique) {
+			e.rep("Unique", "value", in("Unique dst="+lay), e.unique, fmt.Sprint(g))
+		}
+	}
+	a := mkT(e.s)
+	var g []T
+	if e.guard("UniqueInPlace", in("UniqueInPlace"), func() { g = slicez.UniqueInPlace(a) }) && (!sameSet(g, e.unique) || !sameSet(a, e.s)) {
+		e.rep("UniqueInPlace", "value", in("UniqueInPlace"), map[string]interface{}{"multiset": e.unique}, fmt.Sprint(g, a))
+	}
+	id := func(x T) T { return x }
+	if e.guard("UniqueByKey", in("UniqueByKey"), func() { g = slicez.UniqueByKey(nil, mkT(e.s), id) }) && !same(g, e.unique) {
+		e.rep("UniqueByKey", "value", in("UniqueByKey, key = the element"), e.unique, fmt.Sprint(g))
+	}
+	a = mkT(e.s)
+	if e.guard("UniqueByKeyInPlace", in("UniqueByKeyInPlace"), func() { g = slicez.UniqueByKeyInPlace(a, id) }) && (!sameSet(g, e.unique) || !sameSet(a, e.s)) {
+		e.rep("UniqueByKeyInPlace", "value", in("UniqueByKeyInPlace, key = the element"), map[string]interface{}{"multiset": e.unique}, fmt.Sprint(g, a))
+	}
+	for v := 1; v <= 4; v++ {
+		var gi int
+		var gc bool
+		if e.guard("Index", in("Index"), func() { gi = slicez.Index(mkT(e.s), conv(v)); gc = slicez.Contains(mkT(e.s), conv(v)) }) && (gi != e.index[v-1] || gc != (e.index[v-1] >= 0)) {
+			e.rep("Index", "value", map[string]interface{}{"s": e.s, "v": v, "elements": e.name}, e.index[v-1], gi)
+		}
 	}
 }
 
